@@ -80,7 +80,7 @@ V("C16", "ccs_swapped", "violation", (SC, "    indices = np.array(ccs[1]).ravel(
 V("C16", "pflow_no_refresh_flag", "violation", (PFLOW, "            system.j_update(self.models)\n            self.solver.worker.new_A = True", "            system.j_update(self.models)"), rule="C16.refresh")
 V("C16", "umfpack_solve_args", "violation", (SS, "        umfpack.solve(A, N, b)", "        umfpack.solve(A, F, b)"), rule="C16.factorise")
 V("C16", "benign_singular_helper", "silent", (SS, "            return np.ravel(matrix(np.nan, self.b.size, 'd'))", "            nan_vec = matrix(np.nan, self.b.size, 'd')\n            return np.ravel(nan_vec)"))
-V("C17", "pflow_no_elements_silent", "violation", (PFLOW, "            logger.error(\"Loaded case contains no power flow element.\")\n            system.exit_code = 1\n            return False", "            logger.error(\"Loaded case contains no power flow element.\")\n            return False"), rule="C17.exit")
+V("C17", "pflow_no_elements_silent", "violation", (PFLOW, "            logger.error(\"Loaded case contains no power flow element.\")\n            system.exit_code += 1\n            return False", "            logger.error(\"Loaded case contains no power flow element.\")\n            return False"), rule="C17.exit")
 V("C17", "tds_success_without_tf", "violation", (TDS, "        elif system.dae.t == self.config.tf:\n            succeed = True   # success flag", "        elif system.dae.t >= 0:\n            succeed = True   # success flag"), rule="C17.success")
 V("C17", "tds_else_no_exit", "violation", (TDS, "            self.pbar.update(100 - self.last_pc)\n        else:\n            system.exit_code += 1", "            self.pbar.update(100 - self.last_pc)\n        else:\n            pass"), rule="C17.exit")
 V("C17", "test_init_loose", "violation", (TDS, "        if np.max(np.abs(system.dae.fg)) < self.config.tol:", "        if np.max(np.abs(system.dae.fg)) < 1.0:"), rule="C17.success")
@@ -88,7 +88,7 @@ V("C17", "tds_gate_removed", "violation", (TDS, "        if system.PFlow.converg
 V("C17", "eig_precheck_continues", "violation", ("andes/routines/eig.py", "            logger.warning('Power flow not solved. Eig analysis will not continue.')\n            return False", "            logger.warning('Power flow not solved. Eig analysis will not continue.')\n            status = False"), rule="C17.gate")
 V("C17", "main_none_system_ok", "violation", ("andes/main.py", "        if system is not None:\n            ex_code += system.exit_code\n        else:\n            ex_code += 1", "        if system is not None:\n            ex_code += system.exit_code"), rule="C17.aggregate")
 V("C17", "nk_except_success", "violation", (PFLOW, "            logger.error(e)\n            self.converged = False", "            logger.error(e)\n            self.converged = True"), rule="C17.success")
-V("C17", "benign_exit_code_value", "silent", (PFLOW, "            system.exit_code = 1\n            return False", "            system.exit_code = 2\n            return False"))
+V("C17", "benign_exit_code_value", "silent", (PFLOW, "            system.exit_code += 1\n            return False", "            system.exit_code += 2\n            return False"))
 
 # ---------------- C06
 PARAM = "andes/core/param.py"
